@@ -180,6 +180,9 @@ pub fn check(id: &str, tier: Tier) -> Result<Report, String> {
         }
         "C25" => crate::e2::check_c25(tier),
         "C26" => crate::e2::check_c26(tier),
+        "C21" => crate::e2b::check_c21(tier),
+        "C22" => crate::e2b::check_c22(tier),
+        "C24" => crate::e2c::check_c24(tier),
         _ => return Err(format!("no check for {id}")),
     };
     let _ = json!(null);
@@ -189,6 +192,10 @@ pub fn check(id: &str, tier: Tier) -> Result<Report, String> {
 
 pub fn replay_other(v: &serde_json::Value) -> i32 {
     if v["engine"].as_str() == Some("e2") {
+        if let Some(f) = crate::e2b::replay_case(&v["case"]) {
+            let again = crate::e2b::replay_case(&v["case"]).unwrap();
+            return crate::e2::replay_verdict(v, f, again);
+        }
         return crate::e2::replay(v);
     }
     crate::host::elog("unknown replay engine");
